@@ -475,6 +475,12 @@ def shard(ctx):
             k += 1
             if ctx.mine(k):
                 run_case(ctx, {"input": s, "options": opts, "frag": True, "container": "div"})
+    # every short token sequence, under a rotating option set (bounded-exhaustive over the sequences)
+    optsets = [{}, {"quote_attr_values": "always"}, {"quote_attr_values": "spec", "use_trailing_solidus": True}, {"escape_rcdata": True},
+               {"minimize_boolean_attributes": False, "quote_char": "'"}, {"encoding": "ascii"}, {"alphabetical_attributes": True}]
+    for qi, q in enumerate(gen.token_sequences(ctx, 3, 3, 0.4, suffix="x&amp;<y")):
+        run_case(ctx, {"input": q, "options": optsets[qi % len(optsets)], "frag": bool(qi % 2), "container": "div"})
+        ctx.count("sequence_cases")
     n, idx = 0, ctx.i
     limit = (40000 if ctx.tier == "quick" else 2000000) // ctx.n
     t_end = time.time() + ctx.time_left()
@@ -496,6 +502,7 @@ def replay(ctx, case):
 
 
 def finalize(m, v):
+    gen.sequences_inconclusive(m)
     c = m["counters"]
     if c.get("streams_retokenised", 0) < 20000:
         m["inconclusive"].append("fewer than 20000 streams re-tokenised")
